@@ -80,9 +80,11 @@ func hashAll(r *gtfs.Realtime, yield bool) string {
 }
 func walkAll(s *gtfs.Static) string {
 	var b strings.Builder
-	for i := range s.Stops {
-		b.WriteString(s.Stops[i].Root().Id)
-		b.WriteByte(';')
+	if tr := cyclicStop(s); tr == "" { // Root() spins forever on a parent cycle: that is C03 / C05's business, not this engine's
+		for i := range s.Stops {
+			b.WriteString(s.Stops[i].Root().Id)
+			b.WriteByte(';')
+		}
 	}
 	for i := range s.Trips {
 		t := &s.Trips[i]
